@@ -34,6 +34,11 @@ Bigs == {[t |-> "Big", ty |-> ty, over |-> o] : ty \in Types, o \in Overs}
 Tinies == {[t |-> "Tiny", ty |-> ty, declared |-> d] : ty \in {"Q", "P", "S"}, d \in 0..3}
 Huges == {[t |-> "Huge", ty |-> ty, declared |-> d, sent |-> 10] : ty \in {"Q", "B"}, d \in {"2^31", "2^32-5", "2^32-1"}}
 Others == {[t |-> "S"], [t |-> "P", name |-> "", q |-> Q(2), noids |-> 0], [t |-> "X"]}
+\* a statement that starts COPY-in and reads: the oversized message arrives while the handler reads
+Read == [op |-> "copyread", onerr |-> "ret"]
+QCopy == [id |-> 3, parse |-> "ok", stmts |-> <<[id |-> 3, cols |-> <<[name |-> "c", oid |-> 25]>>, oids |-> <<>>,
+                                                 prog |-> <<[op |-> "copyin", fmt |-> 0], Read, Read, Done, RetNil>>]>>]
+InCopy == h.on /\ h.copy
 
 StartupMsg == [t |-> "Startup", term |-> TRUE, kvs |-> <<[k |-> "user", v |-> "u"]>>]
 Quiet == inq = <<>> /\ ~ENABLED ServerStep
@@ -49,7 +54,8 @@ MCSend ==
             \/ phase = "startup" /\ \E d \in 0..3 : Push([t |-> "Tiny", ty |-> "Startup", declared |-> d])
             \/ phase = "auth" /\ \E m \in Bigs \cup Tinies : m.ty \in {"p", "Q"} /\ Push(m)
        ELSE \/ phase = "startup" /\ Push(StartupMsg)
-            \/ phase = "ready" /\ \E m \in Fits \cup Bigs \cup Tinies \cup Huges \cup Others : Push(m)
+            \/ phase = "ready" /\ ~InCopy /\ \E m \in Fits \cup Bigs \cup Tinies \cup Huges \cup Others \cup {[t |-> "Q", q |-> QCopy]} : Push(m)
+            \/ phase = "ready" /\ InCopy /\ \E m \in {b \in Bigs : b.ty \in {"d", "Q", "U"}} \cup {[t |-> "d", dig |-> "s:x", _hex |-> "78"], [t |-> "c"]} : Push(m)
 
 MCEof == /\ Quiet /\ phase = "slurp" /\ ~eof /\ ClientEOF /\ hist' = Append(hist, [k |-> "eof"])
 
@@ -66,6 +72,12 @@ RecvT(ev, t) == {i \in DOMAIN ev : ev[i].k = "recv" /\ ev[i].m.t = t}
 
 \* an oversized message in a session: exactly one ErrorResponse of class 54000,
 \* non-fatal, and the session goes on
+\* inside a COPY the oversized message is skipped in full as well; it aborts the COPY, which is
+\* reported once, and the next message is processed normally
+OversizeInCopy ==
+    [][(h.on /\ h.copy /\ inq # <<>> /\ Head1.t = "Big" /\ inq' = Tail(inq)) =>
+          (Cardinality(RecvT(emit', "E")) = 1 /\ Cardinality(RecvT(emit', "Z")) = 1 /\ phase' = "ready" /\ ~h'.on)]_mcvars
+
 OversizeAnswered ==
     [][(Reading("ready") /\ ~skip /\ Head1.t = "Big") =>
           /\ Cardinality(RecvT(emit', "E")) = 1
